@@ -44,6 +44,18 @@ class Source:
         return ev
 
 
+class Reiterable:
+    """an async ITERABLE that is not its own iterator: every __aiter__() starts a fresh pass over the events (the response stream must take one iterator, once)"""
+
+    def __init__(self, events, delays, sources):
+        self.events, self.delays, self.sources = events, delays, sources
+
+    def __aiter__(self):
+        src = Source(self.events, self.delays)
+        self.sources.append(src)
+        return src
+
+
 def make_schema(sources, async_resolver, with_resolver=True):
     from py_gql import build_schema
     from py_gql.exc import ResolverError
@@ -63,6 +75,8 @@ def make_schema(sources, async_resolver, with_resolver=True):
                 return src
         else:
             def sub(root, ctx, info, **kw):
+                if ctx.get("reiterable"):
+                    return Reiterable(ctx["events"], ctx["delays"], sources)
                 src = Source(ctx["events"], ctx["delays"])
                 sources.append(src)
                 return src
@@ -73,8 +87,8 @@ def make_schema(sources, async_resolver, with_resolver=True):
 
 def _name_behaviour(parent, field, path):
     """what make_schema's name_resolver does, as a world function for the reference executor"""
-    if parent is None:
-        return ("null",)          # a None event: the library's default resolver finds nothing on it
+    if parent is None or isinstance(parent, (int, str)):
+        return ("null",)          # a None / scalar event: the library's default resolver finds nothing on it (an event is the root VALUE, not the field's value)
     if field == "name" and isinstance(parent, dict) and parent.get("bad"):
         return ("error", "bad %s" % parent["bad"], {"event": parent["bad"]})
     return None
@@ -89,11 +103,11 @@ def person(k, bad=False, nested_bad=False):
 
 
 def event_sequences(tier):
-    kinds = ("ok", "bad", "nested", "none")        # "none": the source yields None - an event like any other (one result, root value None)
+    kinds = ("ok", "bad", "nested", "none", "scalar")        # "none" / "scalar": the source yields None / a bare number - events like any other (one result each)
     maxlen = 4 if tier == "thorough" else 3
     for n in range(0, maxlen + 1):
         for combo in itertools.product(kinds, repeat=n):
-            yield [None if c == "none" else {"ping": person(k, bad=c == "bad", nested_bad=c == "nested"), "tick": k} for k, c in enumerate(combo)], combo
+            yield [None if c == "none" else (100 + k) if c == "scalar" else {"ping": person(k, bad=c == "bad", nested_bad=c == "nested"), "tick": k} for k, c in enumerate(combo)], combo
 
 
 def check(tier, seed):
@@ -104,18 +118,20 @@ def check(tier, seed):
     run = Run("C17", tier, seed)
     n = nontrivial = 0
 
-    def consume(schema, query, events, delays, sources, runtime_factory=None, variables=None):
+    def consume(schema, query, events, delays, sources, runtime_factory=None, variables=None, reiterable=False):
         loop = asyncio.new_event_loop()
         try:
             asyncio.set_event_loop(loop)
             rt = AsyncIORuntime(loop=loop) if runtime_factory is None else runtime_factory()
 
             async def go():
-                stream = await subscribe(schema, parse(query), variables=variables, context_value={"events": events, "delays": delays}, runtime=rt)
+                stream = await subscribe(schema, parse(query), variables=variables, context_value={"events": events, "delays": delays, "reiterable": reiterable}, runtime=rt)
                 out = []
                 async for res in stream:
                     out.append(res)
                     await asyncio.sleep(0)
+                    if len(out) > len(events) + 3:
+                        break          # a finite source must give a finite response stream: the surplus is reported by the length comparison below
                 return out
             return loop.run_until_complete(go())
         finally:
@@ -125,14 +141,16 @@ def check(tier, seed):
     ref_schema = make_schema([], False)
     for query in SELECTIONS:
         for events, combo in event_sequences(tier):
-            for async_resolver in (False, True):
+            for async_resolver, reiterable in ((False, False), (True, False), (False, True)):
                 for delays in ([0], [2, 0, 1]):
+                    if reiterable and delays != [0]:
+                        continue
                     sources = []
                     schema = make_schema(sources, async_resolver)
                     n += 1
-                    w = {"query": query, "events": list(combo), "async_subscription_resolver": async_resolver, "delays": delays}
+                    w = {"query": query, "events": list(combo), "async_subscription_resolver": async_resolver, "delays": delays, "source_is_its_own_iterator": not reiterable}
                     try:
-                        results = consume(schema, query, events, delays, sources)
+                        results = consume(schema, query, events, delays, sources, reiterable=reiterable)
                     except Exception as e:
                         run.violation("subscribe:stream-completes", "consuming the response stream raised %r" % (e,), dict(w, exc=type(e).__name__), True)
                         continue
